@@ -319,6 +319,11 @@ def sched_case(
                   and all(e[0] == "v" for e in P["ret"][1]) and not any(f.get("setup") or f.get("debug") for f in P["fns"].values()))
     if compose_ok and gen.chance(draw, 0.25):
         case["derive"] = "compose"  # the DAG that runs is compose()d from the described one (all sites as outputs)
+        deps_c = gen.deps_of(P)
+        free_roots = [s["site"] for s in P["body"] if not deps_c[s["site"]] and s.get("active") is None and s["site"] not in (case.get("failing") or [])]
+        if free_roots and len(free_roots) < len(sites) and draw(st.booleans()):
+            # some dependency-free sites become INPUTS of the composed DAG (supplied with the values they would produce)
+            case["compose_inputs"] = draw(st.lists(st.sampled_from(free_roots), min_size=1, max_size=min(2, len(free_roots)), unique=True))
     elif nested_rate and not case.get("sel") and case.get("call") != "setup" and not n_params and gen.chance(draw, nested_rate):
         case["nested"] = True  # the program is called as a DAG nested in an outer DAG
     elif nested_rate and case.get("call") != "setup" and not n_params and gen.chance(draw, 0.3):
@@ -326,12 +331,13 @@ def sched_case(
         plain_ret = all(e[0] == "v" for e in P["ret"][1])
         # (Hypothesis favours the first elements of sampled_from: the options that are only sometimes possible come first)
         opts = (["compose"] if plain_ret and not case.get("sel") and not any(f.get("setup") or f.get("debug") for f in P["fns"].values()) else [])
-        if not case.get("sel") and not case.get("failing") and not flags and not any(f.get("setup") or f.get("debug") or f.get("kind") == "const" for f in P["fns"].values()):
+        if not case.get("sel") and not case.get("failing") and not any(f.get("setup") or f.get("debug") for f in P["fns"].values()):
             opts.append("cache")
         opts += ["executor", "deepcopy"]
         case["derive"] = draw(st.sampled_from(opts))
         if case["derive"] == "cache":
             case["cached"] = draw(st.lists(st.sampled_from(sites), min_size=1, max_size=max(1, len(sites) // 2), unique=True))
+            case["cache_kind"] = draw(st.sampled_from(["target", "deps_of"]))
     if profile_rate and draw(st.floats(0, 1)) < profile_rate:
         case["profile"] = True  # cfg.TAWAZI_PROFILE_ALL_NODES: every node runs inside the profiling context
     if config_rate and draw(st.floats(0, 1)) < config_rate:
